@@ -31,6 +31,12 @@ func concRoutes() []map[string]any {
 			{"handler": "verif_h", "k": "teemark"}, {"handler": "tee", "branch": []map[string]any{{"handler": "verif_h", "k": "branchterm"}}}, {"handler": "verif_h", "k": "term", "l": 1, "r": 2}}},
 		{"match": []map[string]any{vhm(5, "N", "c")}, "handle": []map[string]any{{"handler": "verif_h", "k": "term"}}},
 		{"match": []map[string]any{vhm(1, "Y", "c")}, "handle": []map[string]any{{"handler": "verif_h", "k": "mark", "l": 1, "r": 4}, {"handler": "verif_h", "k": "wrap"}, {"handler": "echo"}}},
+		// kind d: a wrapping handler, then MORE matching on the wrapped connection (its buffer starts empty: prefetch takes
+		// a pooled chunk), then a real subroute that falls through to the last route
+		{"match": []map[string]any{vhm(4, "Y", "d")}, "handle": []map[string]any{{"handler": "verif_h", "k": "mark", "l": 1, "r": 5}, {"handler": "verif_h", "k": "wrap"}}},
+		{"match": []map[string]any{vhm(2500, "Y", "d")}, "handle": []map[string]any{{"handler": "verif_h", "k": "mark", "l": 1, "r": 6},
+			{"handler": "subroute", "routes": []map[string]any{{"match": []map[string]any{vhm(1, "N", "d")}, "handle": []map[string]any{{"handler": "verif_h", "k": "term"}}}}}}},
+		{"match": []map[string]any{vhm(2600, "Y", "d")}, "handle": []map[string]any{{"handler": "verif_h", "k": "term", "l": 1, "r": 7}}},
 	}
 }
 
@@ -93,12 +99,12 @@ func init() {
 		if err != nil {
 			return err
 		}
-		kinds := []string{"a", "b", "c", "none"}
+		kinds := []string{"a", "b", "c", "none", "d"}
 		lens := []int{0, 20, 3000, 9000, 20000}
 		// solo: each connection alone; then all at once
 		solo := make([][]vh.Ev, *n)
 		for i := 0; i < *n; i++ {
-			solo[i] = concOne(srv, kinds[i%4], i, *seed, lens[i%5])
+			solo[i] = concOne(srv, kinds[i%5], i, *seed, lens[(i/5)%5])
 		}
 		together := make([][]vh.Ev, *n)
 		var wg sync.WaitGroup
@@ -108,14 +114,14 @@ func init() {
 			go func(i int) {
 				defer wg.Done()
 				<-start
-				together[i] = concOne(srv, kinds[i%4], i, *seed, lens[i%5])
+				together[i] = concOne(srv, kinds[i%5], i, *seed, lens[(i/5)%5])
 			}(i)
 		}
 		close(start)
 		wg.Wait()
 		var samples []any
 		for i := 0; i < *n; i++ {
-			t := map[string]any{"id": fmt.Sprintf("conc:%d", i), "kind": kinds[i%4], "slen": lens[i%5], "solo": nonNil(solo[i]), "together": nonNil(together[i])}
+			t := map[string]any{"id": fmt.Sprintf("conc:%d", i), "kind": kinds[i%5], "slen": lens[(i/5)%5], "solo": nonNil(solo[i]), "together": nonNil(together[i])}
 			lw.Write(t)
 			if i < 2 {
 				samples = append(samples, t)
